@@ -119,10 +119,10 @@ def check(case, ctx):
         arr[0] = 0.5 * arr[0] - 0.75
         arr[1] = -arr[1]
     if k == "se3":
-        np.asarray(a)[3:] *= -3.0
-        a.normalize()
-        np.asarray(b)[3:] = np.asarray(b)[3:][[1, 2, 0, 3]] * 0.5
-        b.normalize()
+        # plain slice assignment of another unit quaternion (no normalize() call, which a cache might hook into)
+        qa, qb = np.array(np.asarray(a)[3:]), np.array(np.asarray(b)[3:])
+        np.asarray(a)[3:] = -qb
+        np.asarray(b)[3:] = qa[[1, 2, 0, 3]] * np.array([1.0, -1.0, 1.0, -1.0])
     elif k == "se2":
         np.asarray(a)[2] *= -0.5
         np.asarray(b)[2] = 0.25 * np.asarray(b)[2] + 0.5
@@ -162,6 +162,33 @@ def _run(case, ctx, a, b, pt, S_, label):
             return ctx.fail("shape", "%s.%s has shape %s, documented %s" % (k, name, J.shape, shp))
         if not np.all(np.isfinite(J)):
             return ctx.fail("nonfinite", "%s.%s has non-finite entries" % (k, name))
+    # every call returns an independent array: modifying a returned Jacobian in place (custom edges do) must not
+    # change what a later call returns
+    again = {
+        "oplus_self": lambda: a.jacobian_self_oplus_other_wrt_self(b),
+        "oplus_other": lambda: a.jacobian_self_oplus_other_wrt_other(b),
+        "ominus_self": lambda: a.jacobian_self_ominus_other_wrt_self(b),
+        "ominus_other": lambda: a.jacobian_self_ominus_other_wrt_other(b),
+        "boxplus": lambda: a.jacobian_boxplus(),
+        "point_self": lambda: a.jacobian_self_oplus_point_wrt_self(pt),
+        "point_point": lambda: a.jacobian_self_oplus_point_wrt_point(pt),
+        "inverse": lambda: a.jacobian_inverse(),
+        "oplus_self_compact": lambda: a.jacobian_self_oplus_other_wrt_self_compact(b),
+        "oplus_other_compact": lambda: a.jacobian_self_oplus_other_wrt_other_compact(b),
+        "ominus_self_compact": lambda: a.jacobian_self_ominus_other_wrt_self_compact(b),
+        "ominus_other_compact": lambda: a.jacobian_self_ominus_other_wrt_other_compact(b),
+    }
+    if not second:
+        for name, f in again.items():
+            J1 = f()
+            keep = np.array(J1, dtype=float)
+            try:
+                np.asarray(J1)[...] = np.asarray(J1) * -7.0 + 3.0
+            except ValueError:
+                pass  # a read-only result cannot be corrupted by the caller
+            J2 = np.asarray(f(), dtype=float)
+            if J2.shape != keep.shape or not np.array_equal(J2, keep):
+                return ctx.fail("jacobian-result-shared-between-calls", "%s.%s: modifying a returned matrix in place changed the result of the next call" % (k, name))
     for name, Jc in compact.items():
         Jc = np.asarray(Jc, dtype=float)
         Jf = np.asarray(full[name][0], dtype=float)
